@@ -301,9 +301,47 @@ impl Machine {
             );
             let readable = v.len <= 4096 && self.log_contents && (v.a != -100 || v.len == 0);
             if readable {
-                let d: &[u8] = match self.hs[id].as_ref().unwrap() {
-                    H::B(b) => &b[..],
-                    H::M(m) => &m[..],
+                // the contents are read through a different public accessor each time (all of
+                // them must show the same bytes): Deref, AsRef, Borrow, Buf::chunk, iter(),
+                // IntoIterator for &T, to_vec; for BytesMut also AsMut / BorrowMut / DerefMut and a
+                // by-value iteration over a (deep) clone
+                let how = (self.evno + id) % 8;
+                let tmp: Vec<u8>;
+                let d: &[u8] = match self.hs[id].as_mut().unwrap() {
+                    H::B(b) => match how {
+                        1 => AsRef::<[u8]>::as_ref(&*b),
+                        2 => std::borrow::Borrow::<[u8]>::borrow(&*b),
+                        3 => Buf::chunk(&*b),
+                        4 => {
+                            tmp = b.iter().copied().collect();
+                            &tmp
+                        }
+                        5 => {
+                            tmp = (&*b).into_iter().copied().collect();
+                            &tmp
+                        }
+                        6 => {
+                            tmp = b.to_vec();
+                            &tmp
+                        }
+                        _ => &b[..],
+                    },
+                    H::M(m) => match how {
+                        1 => AsRef::<[u8]>::as_ref(&*m),
+                        2 => std::borrow::Borrow::<[u8]>::borrow(&*m),
+                        3 => Buf::chunk(&*m),
+                        4 => {
+                            tmp = (&*m).into_iter().copied().collect();
+                            &tmp
+                        }
+                        5 => {
+                            tmp = m.clone().into_iter().collect();
+                            &tmp
+                        }
+                        6 => std::borrow::BorrowMut::<[u8]>::borrow_mut(m),
+                        7 => AsMut::<[u8]>::as_mut(m),
+                        _ => &m[..],
+                    },
                     H::V(v) => &v[..],
                 };
                 Self::jbytes(&mut s, d);
@@ -451,7 +489,7 @@ impl Machine {
         }
         let nfresh = match name {
             "b_from_vec" | "b_from_box" | "b_copy" | "b_from_iter" | "m_from_slice" => x.min(1 << 16),
-            "b_from_owner" => x.max(1).min(1 << 16),
+            "b_from_owner" => if op.mode == 2 { 0 } else { x.max(1).min(1 << 16) },     // mode 2: an owner with an empty slice
             "m_extend" => x.min(4096),
             _ => 0,
         };
@@ -481,7 +519,11 @@ impl Machine {
                 "b_static" => {
                     let off = x.min(ARENA_LEN);
                     let len = y.min(ARENA_LEN - off);
-                    let b = Bytes::from_static(&ARENA[off..off + len]);
+                    let b = match op.mode {
+                        1 => Bytes::from(&ARENA[off..off + len]),
+                        2 => Bytes::from(std::str::from_utf8(&ARENA[off..off + len]).unwrap()),
+                        _ => Bytes::from_static(&ARENA[off..off + len]),
+                    };
                     newids.push(self.put(H::B(b)));
                 }
                 "b_from_vec" => {
@@ -516,9 +558,11 @@ impl Machine {
                         return Err(());
                     }
                     la::set_window(2);
-                    let dv = d.clone();
+                    let mut dv = Vec::with_capacity(d.len().max(2));
+                    dv.extend_from_slice(&d);
                     la::set_window(1);
-                    self.owners.push((dv.as_ptr() as usize, dv.len()));
+                    // (an empty owner still has an address: its handles are located through it)
+                    self.owners.push((dv.as_ptr() as usize, dv.len().max(1)));
                     let owner = Owner { k, data: dv, panic_in_asref: op.mode == 1 };
                     let b = Bytes::from_owner(owner);
                     newids.push(self.put(H::B(b)));
@@ -561,6 +605,10 @@ impl Machine {
                             1 => b.slice(x..),
                             2 => b.slice(..y),
                             3 => b.slice(x..=y),
+                            // the same ranges spelled with explicit bounds (exclusive start)
+                            4 if x >= 1 => b.slice((std::ops::Bound::Excluded(x - 1), std::ops::Bound::Excluded(y))),
+                            5 if x >= 1 => b.slice((std::ops::Bound::Excluded(x - 1), std::ops::Bound::Unbounded)),
+                            5 => b.slice((std::ops::Bound::Unbounded, std::ops::Bound::<usize>::Unbounded)),
                             _ => b.slice(x..y),
                         },
                         _ => unreachable!(),
